@@ -1256,7 +1256,7 @@ seq_t dtw_warping_paths_ndim(seq_t *wps,
     // D. Rows: MAX(overlap_left_ri, overlap_right_ri) < ri <= l1
     // [x 0 0 0 0]
     // [x x 0 0 0]
-    min_ci = MAX(0, p.ri3 + 1 - p.window - p.ldiff );
+    min_ci = MAX(0, p.ri3 + 1 - p.window - p.ldiffr);
     wpsi_start = 2;
     if (p.ri2 == p.ri3) {
         // C is skipped
@@ -1637,7 +1637,7 @@ seq_t dtw_warping_paths_ndim_euclidean(seq_t *wps,
     // D. Rows: MAX(overlap_left_ri, overlap_right_ri) < ri <= l1
     // [x 0 0 0 0]
     // [x x 0 0 0]
-    min_ci = MAX(0, p.ri3 + 1 - p.window - p.ldiff );
+    min_ci = MAX(0, p.ri3 + 1 - p.window - p.ldiffr);
     wpsi_start = 2;
     if (p.ri2 == p.ri3) {
         // C is skipped
@@ -2136,7 +2136,7 @@ seq_t dtw_warping_paths_affinity_ndim(seq_t *wps,
     // D. Rows: MAX(overlap_left_ri, overlap_right_ri) < ri <= l1
     // [x 0 0 0 0]
     // [x x 0 0 0]
-    min_ci = MAX(0, p.ri3 + 1 - p.window - p.ldiff );
+    min_ci = MAX(0, p.ri3 + 1 - p.window - p.ldiffr);
     wpsi_start = 2;
     if (p.ri2 == p.ri3) {
         // C is skipped
@@ -2474,7 +2474,7 @@ seq_t dtw_warping_paths_affinity_ndim_euclidean(seq_t *wps,
     // D. Rows: MAX(overlap_left_ri, overlap_right_ri) < ri <= l1
     // [x 0 0 0 0]
     // [x x 0 0 0]
-    min_ci = MAX(0, p.ri3 + 1 - p.window - p.ldiff );
+    min_ci = MAX(0, p.ri3 + 1 - p.window - p.ldiffr);
     wpsi_start = 2;
     if (p.ri2 == p.ri3) {
         // C is skipped
